@@ -11,9 +11,7 @@ namespace K
 variable {α : Type} [Add α] [Sub α] [Mul α] [Div α] [Neg α] [LT α] [LE α]
   [DecidableLT α] [DecidableLE α] [OfScientific α] [KOps α]
 
-/-- `std::f64::consts::TAU`.  In binary64 TAU is exactly `2 * PI` (doubling is exact); the `lfo`
-    correspondence suite pins the bits (`starting_phase / TAU`, `sin(phase * TAU)`). -/
-def tau : α := (2.0 : α) * KOps.pi
+-- `tau` (`std::f64::consts::TAU`) is declared in Model/UnitTypes.lean (the generated layer uses it)
 
 /-- Rust `x % 1.0` on `f64` (C `fmod`: exact, the result carries the sign of the dividend — also
     when it is zero; `x - trunc x` is exact but would give `+0.0` for a negative whole `x`). -/
@@ -30,21 +28,9 @@ def remEuclid1 (x : α) : α :=
   let r := rem1 x
   if r < (0.0 : α) then r + (1.0 : α) else r
 
-/-- mirrors: modulator/lfo.rs::Waveform -/
-inductive Waveform (α : Type) where
-  | sine
-  | triangle
-  | saw
-  | pulse (width : α)
-deriving Repr
-
-/-- mirrors: modulator/lfo.rs::Waveform::value -/
-def Waveform.value (w : Waveform α) (phase : α) : α :=
-  match w with
-  | .sine => KOps.sin (phase * tau)
-  | .triangle => KOps.abs (fract (phase + (0.75 : α)) - (0.5 : α)) * (4.0 : α) - (1.0 : α)
-  | .saw => fract (phase + (0.5 : α)) * (2.0 : α) - (1.0 : α)
-  | .pulse width => if phase < width then (1.0 : α) else -(1.0 : α)
+/-- mirrors: modulator/lfo.rs::Waveform::value — generated (GenFn.lean) -/
+def Waveform.value (w : Waveform α) (phase : α) : α := gen_body% Gen.waveformValue w phase
+gen_alias Gen.waveformValue => Waveform.value
 
 /-- mirrors: modulator/lfo.rs::Lfo (without the command readers and the shared `removed` flag) -/
 structure Lfo (α : Type) where
@@ -65,14 +51,16 @@ structure LfoBuilder (α : Type) where
 
 /-- mirrors: `impl Default for LfoBuilder` -/
 def LfoBuilder.default : LfoBuilder α :=
-  ⟨.sine, .fixed (2.0 : α), .fixed (1.0 : α), .fixed (0.0 : α), (0.0 : α)⟩
+  gen_body% ⟨Gen.lfoDefaultWaveform, .fixed Gen.lfoBuilderDefaultFrequency, .fixed Gen.lfoBuilderDefaultAmplitude,
+    .fixed Gen.lfoBuilderDefaultOffset, Gen.lfoBuilderDefaultStartingPhase⟩
 
 /-- mirrors: modulator/lfo.rs::Lfo::new — note `value` starts at `0.0`, not at `offset + …` -/
 def Lfo.new (b : LfoBuilder α) : Lfo α :=
+  gen_body%
   { waveform := b.waveform
-    frequency := Parameter.new b.frequency (2.0 : α)
-    amplitude := Parameter.new b.amplitude (1.0 : α)
-    offset := Parameter.new b.offset (0.0 : α)
+    frequency := Parameter.new b.frequency Gen.lfoDefaultFrequency
+    amplitude := Parameter.new b.amplitude Gen.lfoDefaultAmplitude
+    offset := Parameter.new b.offset Gen.lfoDefaultOffset
     phase := b.startingPhase / tau
     value := (0.0 : α) }
 
